@@ -5,8 +5,9 @@ import Std.Data.HashMap
 /-!
 Driver for C09 (line protocol, see harness/props/c09.py).
 
-  CALL = {"cls":str,"form":"str"|"class","kw":[[key,VAL]…],"flag":b,"cf":b,"cv":b,"oid":n}
-         cf: the real constructor raises ValueError on these keywords; cv: the real validate() accepts the component
+  CALL = {"cls":str,"form":"str"|"class","kw":[[key,VAL]…],"flag":b,"cf":b,"cv":b,"oid":n,"fields":[[member,VAL]…]}
+         cf: the real constructor raises ValueError on these keywords; cv: the real validate() accepts the component;
+         fields: the member attributes the real constructor (and Cell setup) leaves behind (`Env.ctorValue`)
   {"op":"factory","en":b, CALL…}                        -> {"r":TAG,"landed":[member names set from keywords]}
   {"op":"session","init":b,"cmds":[["enable"]|["disable"]|["make",CALL]…]}
                                                           -> {"switch":b,"res":[TAG…]}
@@ -109,8 +110,21 @@ def resTag : Except Factory.Err Obj → String
   | .error e => errTag e
 
 /-- environment from the bits the harness measured on the real library: per keyword list / per new object -/
-def mkEnv (cf : List String) (valid : Obj → Bool) : Env :=
-  ⟨valid, fun cls kw => cf.contains (kwKey cls kw), Gen.Members.cellCls, id⟩
+def mkEnv (cf : List String) (valid : Obj → Bool) (fields : List (Nat × Val)) : Env where
+  valid := valid
+  ctorFails := fun cls kw => cf.contains (kwKey cls kw)
+  ctorValue := fun _ n v => match lookup fields n with
+    | some x => x
+    | none => match v with | some x => x | none => .none
+  cellCls := Gen.Members.cellCls
+  setupCell := id
+
+def parseFields (j : Json) : List (Nat × Val) :=
+  (getArr j "fields").toList.map (fun f => match f with
+    | .arr p => match p.toList with
+      | [.str k, v] => (intern k, parseVal v)
+      | _ => (0, .none)
+    | _ => (0, .none))
 
 def landed (o : Obj) : Json :=
   Json.arr (o.fields.filterMap (fun (k, v) => match v with
@@ -124,7 +138,7 @@ def handle (j : Json) : Json :=
   | "factory" =>
     let t := parseT j
     let kw := parseKw j
-    let env := mkEnv (if getBool j "cf" then [kwKey t.resolve kw] else []) (fun _ => getBool j "cv")
+    let env := mkEnv (if getBool j "cf" then [kwKey t.resolve kw] else []) (fun _ => getBool j "cv") (parseFields j)
     let r := factory T env (getBool j "en") (getBool j "flag") t kw (getNat j "oid")
     Json.mkObj [("r", resTag r), ("landed", match r with | .ok o => landed o | .error _ => .null)]
   | "session" =>
@@ -133,7 +147,7 @@ def handle (j : Json) : Json :=
       | _ => none)
     let cf := calls.filterMap (fun c => if getBool c "cf" then some (kwKey (parseT c).resolve (parseKw c)) else none)
     let validOids := calls.filterMap (fun c => if getBool c "cv" then some (getNat c "oid") else none)
-    let env := mkEnv cf (fun o => validOids.contains o.oid)
+    let env := mkEnv cf (fun o => validOids.contains o.oid) []
     let cmds : List Cmd := (getArr j "cmds").toList.filterMap (fun c => match c with
       | .arr a =>
         match (a[0]? : Option Json) with
@@ -152,7 +166,7 @@ def handle (j : Json) : Json :=
       let kw := parseKw c
       let oid := getNat c "oid"
       let env := mkEnv (if getBool c "cf" then [kwKey t.resolve kw] else [])
-        (fun o => if o.oid == oid then getBool c "cv" else getBool c "pv")
+        (fun o => if o.oid == oid then getBool c "cv" else getBool c "pv") (parseFields c)
       let hint := (getStr? c "hint").bind (fun s => if s.isEmpty then none else some (intern s))
       let r := addByType T env (fun _ => getBool c "sok") (getBool c "en") (getBool c "flag") parent t kw hint
                 (getBool c "force") oid
